@@ -99,6 +99,14 @@ def main(args):
         return digests_cmd(args)
     if args.what == 'regress':
         return regress(args)
+    if args.what == 'forkserver':
+        import vivarium  # noqa
+        from dst import parallel
+        done, problems = parallel.real_spot(n=min(args.n, 6))
+        for pr in problems:
+            print('PROBLEM', pr)
+        print('forkserver: %d cases on the real transport, %d problems' % (done, len(problems)))
+        return 1 if problems or not done else 0
     if args.what == 'sensitivity':
         from dst import sensitivity
         return sensitivity.main(args)
